@@ -351,8 +351,8 @@ func c01RunCompiled(dir string, progs []c01Prog, funcsSrc c01Sources, nres []int
 		defer os.RemoveAll(dir)
 	}
 	files := map[string]string{
-		"go.mod":   "module c01oracle\n\ngo 1.26.0\n",
-		"main.go":  c01MainSource(progs, nres),
+		"go.mod":  "module c01oracle\n\ngo 1.26.0\n",
+		"main.go": c01MainSource(progs, nres),
 	}
 	for i := range funcsSrc.names {
 		files[funcsSrc.names[i]] = funcsSrc.texts[i]
@@ -490,7 +490,7 @@ func c01BuildLikeBuildir(fset *token.FileSet, files []*ast.File, mode ir.Builder
 
 // c01Observe runs f<i> on all inputs; it returns the observation strings, or unsupported != "".
 func c01Observe(in *irexec.Interp, pkg *ir.Package, i int, p c01Prog) (obs []string, unsupported string) {
-	fn := pkg.Func("f"+c01Suffix(i))
+	fn := pkg.Func("f" + c01Suffix(i))
 	if fn == nil {
 		return nil, "no function"
 	}
@@ -592,6 +592,7 @@ type c01Stats struct {
 }
 
 var c01Global c01Stats
+var c01Sampled [4]int32
 
 func c01Case(p c01Prog, mode string) map[string]any {
 	return map[string]any{"family": p.Family, "index": p.Index, "desc": p.Desc, "mode": mode}
@@ -627,7 +628,7 @@ func c01RunBatch(res *vx.Result, dir string, progs []c01Prog, modes []c01Mode, v
 	nres := make([]int, len(progs))
 	generic := false
 	for i, p := range progs {
-		obj, _ := tpkg.Scope().Lookup("f"+c01Suffix(i)).(*types.Func)
+		obj, _ := tpkg.Scope().Lookup("f" + c01Suffix(i)).(*types.Func)
 		if obj == nil {
 			res.Note("generator bug: %s/%d declares no f§", p.Family, p.Index)
 			res.NotExhaustive("generated program without entry point")
@@ -719,7 +720,7 @@ func c01RunBatch(res *vx.Result, dir string, progs []c01Prog, modes []c01Mode, v
 			for k := range nin {
 				if !c01SameObs(mr.obs[i][k], c.obs[i][k]) {
 					a, b := c01Inputs[k/len(c01Inputs)], c01Inputs[k%len(c01Inputs)]
-					fn := mr.built.pkg.Func("f"+c01Suffix(i))
+					fn := mr.built.pkg.Func("f" + c01Suffix(i))
 					msg := fmt.Sprintf("%s/%d mode=%s input a=%d b=%d: behaviour of the IR differs from the compiled program\n  compiled: %s\n  IR:       %s\n(format: outcome <tab> obs log <tab> final globals)\nsource:\n%s\nIR (%s):\n%s",
 						p.Family, p.Index, m.Name, a, b, c.obs[i][k], mr.obs[i][k], p.Text(c01Suffix(i)), m.Name, c01Tail2(c01Dump(fn), 6000))
 					res.Violate(c01Key(p, m.Name), msg, c01Case(p, m.Name))
@@ -759,7 +760,7 @@ func c01RunBatch(res *vx.Result, dir string, progs []c01Prog, modes []c01Mode, v
 			}
 		}
 		if lifted != nil {
-			ft := c01Inspect(lifted.pkg.Func("f"+c01Suffix(i)))
+			ft := c01Inspect(lifted.pkg.Func("f" + c01Suffix(i)))
 			add := func(c *int64, b bool) {
 				if b {
 					atomic.AddInt64(c, 1)
@@ -775,8 +776,19 @@ func c01RunBatch(res *vx.Result, dir string, progs []c01Prog, modes []c01Mode, v
 			if ft.phi || ft.split {
 				atomic.AddInt64(&c01Global.nontrivial, 1)
 			}
-			if ft.split {
-				res.Sample(map[string]any{"family": p.Family, "index": p.Index, "desc": p.Desc, "why": "lifting creates a split alloc", "source": p.Text(c01Suffix(0)), "compiled_observations_first4": c.obs[i][:4]})
+			why := ""
+			switch {
+			case ft.rangeFunc && atomic.CompareAndSwapInt32(&c01Sampled[0], 0, 1):
+				why = "range-over-func lowered to a synthetic yield function"
+			case ft.recoverBlk && atomic.CompareAndSwapInt32(&c01Sampled[1], 0, 1):
+				why = "function with a Recover block"
+			case ft.typeSwitch && atomic.CompareAndSwapInt32(&c01Sampled[2], 0, 1):
+				why = "TypeSwitch + ConstantSwitch"
+			case ft.split && atomic.AddInt32(&c01Sampled[3], 1) <= 3:
+				why = "lifting creates a split alloc"
+			}
+			if why != "" {
+				res.Sample(map[string]any{"family": p.Family, "index": p.Index, "desc": p.Desc, "why": why, "source": p.Text(c01Suffix(0)), "compiled_observations_first4": c.obs[i][:4]})
 			}
 		}
 		if verbose {
@@ -1004,9 +1016,9 @@ func c01Finish(res *vx.Result) {
 	res.Count("compiled_runs_ok", g.okRuns)
 	res.Count("compiled_runs_panic", g.panics)
 	res.Count("ir_instructions_executed", g.steps)
-	res.Count("cpu_ms_toolchain_build_and_run_wall", g.compileNs/1e6)
-	res.Count("cpu_ms_ir_build", g.buildNs/1e6)
-	res.Count("cpu_ms_irexec", g.execNs/1e6)
+	res.Count("wallsum_ms_toolchain_build_and_run", g.compileNs/1e6)
+	res.Count("wallsum_ms_ir_build", g.buildNs/1e6)
+	res.Count("wallsum_ms_irexec", g.execNs/1e6)
 	if g.programs > 0 && g.nontrivial == 0 && res.NumViolations() == 0 {
 		res.Note("non-vacuity: no program with a phi or split alloc")
 	}
